@@ -569,8 +569,11 @@ void dom_p21(void) {
                 }
                 if (h_chance(5)) k += (size_t) sprintf(line + k, " -");
             }
+            /* status snapshot between the messages: summary bits, latching and class bits are judged there */
+            if (h_chance(55)) k += (size_t) sprintf(line + k, " =S");
             if (k > sizeof line - 9000) break;
         }
+        k += (size_t) sprintf(line + k, " =S");
         line[k] = 0;
         emit_case(line);
     }
